@@ -30,12 +30,15 @@ type engine struct {
 	hist  []string
 	// useCustom: also run MSMs over a harness-chosen basis with repeated elements (costs one more table construction)
 	useCustom bool
+	// snapshots of the package-level constants
+	id0, gen0 banderwagon.Element
 }
 
 const engineSlots = 14
 
 func newEngine(c *mon.Ctx, mode string, rng *rand.Rand, base *Pool, env *Env) *engine {
 	g := &engine{c: c, mode: mode, rng: rng, base: base, env: env, useCustom: (mode == "C07" || mode == "C08") && c.Shard%3 == 0}
+	g.id0, g.gen0 = banderwagon.Identity, banderwagon.Generator
 	g.e = make([]banderwagon.Element, engineSlots)
 	g.sh = make([]ref.Point, engineSlots)
 	for i := range g.e {
@@ -183,6 +186,32 @@ func (g *engine) settle(d int, want ref.Point, op string, operandsIdentity bool)
 	g.c.Count("reset_after_invalid_result", 1)
 }
 
+// useRet treats the pointer a method returns the way a caller does who keeps it as an accumulator
+// (acc := new(Element).Op(...); acc.Add(acc, x)): its value must be the result, and writing through it must touch
+// nothing but the receiver.
+func (g *engine) useRet(d int, ret *banderwagon.Element, op string) {
+	if ret == &g.e[d] {
+		return
+	}
+	if ret == nil {
+		g.c.Fail("nil-return/"+op, op+" returned a nil element pointer", nil)
+		return
+	}
+	if *ret != g.e[d] {
+		g.c.Fail("returned-pointer-differs-from-receiver/"+op, op+" returned a pointer to an element other than its result", map[string]interface{}{"history": append([]string(nil), g.hist...)})
+	}
+	*ret = g.e[(d+3)%len(g.e)] // the caller goes on accumulating into what it was given
+	g.c.Count("returned_pointers_other_than_receiver_written", 1)
+}
+
+// constants checks the package-level elements after a step.
+func (g *engine) constants(op string) {
+	if banderwagon.Identity != g.id0 || banderwagon.Generator != g.gen0 {
+		g.c.Fail("package-constant-modified/"+op, "banderwagon.Identity or banderwagon.Generator changed during "+op+" (or when the caller wrote through the pointer it returned)", map[string]interface{}{"history": append([]string(nil), g.hist...)})
+		banderwagon.Identity, banderwagon.Generator = g.id0, g.gen0
+	}
+}
+
 func (g *engine) pickScalar() *big.Int {
 	if g.rng.Intn(3) == 0 {
 		e := edgeScalars()
@@ -213,23 +242,23 @@ func (g *engine) step() {
 	case k < 22:
 		op = "Add"
 		g.log(fmt.Sprintf("e%d.Add(e%d,e%d)", d, a, b))
-		g.e[d].Add(&g.e[a], &g.e[b])
+		g.useRet(d, g.e[d].Add(&g.e[a], &g.e[b]), op)
 		g.settle(d, ref.Add(sa, sb), op, idop)
 	case k < 32:
 		op = "Sub"
 		g.log(fmt.Sprintf("e%d.Sub(e%d,e%d)", d, a, b))
-		g.e[d].Sub(&g.e[a], &g.e[b])
+		g.useRet(d, g.e[d].Sub(&g.e[a], &g.e[b]), op)
 		g.settle(d, ref.Sub(sa, sb), op, idop)
 	case k < 40:
 		op = "Double"
 		g.log(fmt.Sprintf("e%d.Double(e%d)", d, a))
-		g.e[d].Double(&g.e[a])
+		g.useRet(d, g.e[d].Double(&g.e[a]), op)
 		g.settle(d, ref.Double(sa), op, isIdentityClass(sa))
 		b = a
 	case k < 46:
 		op = "Neg"
 		g.log(fmt.Sprintf("e%d.Neg(e%d)", d, a))
-		g.e[d].Neg(&g.e[a])
+		g.useRet(d, g.e[d].Neg(&g.e[a]), op)
 		g.settle(d, ref.Neg(sa), op, isIdentityClass(sa))
 		b = a
 	case k < 58:
@@ -238,7 +267,7 @@ func (g *engine) step() {
 		g.log(fmt.Sprintf("e%d.ScalarMul(e%d,%s)", d, a, s.Text(16)))
 		fs := FrFromBig(s)
 		keep := fs
-		g.e[d].ScalarMul(&g.e[a], &fs)
+		g.useRet(d, g.e[d].ScalarMul(&g.e[a], &fs), op)
 		if fs != keep {
 			g.c.Fail("operand-modified/ScalarMul", "ScalarMul changed its scalar", nil)
 		}
@@ -253,24 +282,24 @@ func (g *engine) step() {
 			x, y = ref.NegP(x), ref.NegP(y)
 		}
 		g.log(fmt.Sprintf("e%d.AddMixed(e%d, affine(e%d) flip=%v)", d, a, b, flip))
-		g.e[d].AddMixed(&g.e[a], bandersnatch.PointAffine{X: FpFromBig(x), Y: FpFromBig(y)})
+		g.useRet(d, g.e[d].AddMixed(&g.e[a], bandersnatch.PointAffine{X: FpFromBig(x), Y: FpFromBig(y)}), op)
 		g.settle(d, ref.Add(sa, sb), op, idop)
 		b = a
 	case k < 68:
 		op = "Set"
 		g.log(fmt.Sprintf("e%d.Set(e%d)", d, a))
-		g.e[d].Set(&g.e[a])
+		g.useRet(d, g.e[d].Set(&g.e[a]), op)
 		g.settle(d, sa, op, isIdentityClass(sa))
 		b = a
 	case k < 70:
 		op = "SetIdentity"
 		g.log(fmt.Sprintf("e%d.SetIdentity()", d))
-		g.e[d].SetIdentity()
+		g.useRet(d, g.e[d].SetIdentity(), op)
 		g.settle(d, ref.Identity(), op, false)
 		a, b = d, d
 	case k < 78:
 		op = "MultiExp"
-		m := 1 + rng.Intn(6)
+		m := rng.Intn(7) // also the empty sum
 		idx := make([]int, m)
 		pts := make([]banderwagon.Element, m)
 		scs := make([]fr.Element, m)
@@ -292,9 +321,11 @@ func (g *engine) step() {
 		}
 		cfg := banderwagon.MultiExpConfig{NbTasks: []int{0, 1, 2, 16, 64}[rng.Intn(5)], ScalarsMont: mont}
 		g.log(fmt.Sprintf("e%d.MultiExp(slots %v, mont=%v, tasks=%d)", d, idx, mont, cfg.NbTasks))
-		_, err := g.e[d].MultiExp(pts, scs, cfg)
+		ret, err := g.e[d].MultiExp(pts, scs, cfg)
 		if err != nil {
 			g.c.Fail("error/MultiExp", "MultiExp with equal lengths returned "+err.Error(), nil)
+		} else {
+			g.useRet(d, ret, op)
 		}
 		g.settle(d, ref.MSM(rp, rs), op, idop)
 		a, b = d, d
@@ -410,6 +441,7 @@ func (g *engine) step() {
 			g.e[b] = eb
 		}
 	}
+	g.constants(op)
 	if g.after != nil {
 		g.after(d, op)
 	}
